@@ -669,8 +669,14 @@ fn instantiate_quad(
     {
         return Ok(None);
     }
+    // `a` abbreviates rdf:type in templates exactly as in WHERE patterns.
+    let predicate_term = if template.triple.1.trim() == "a" {
+        "<http://www.w3.org/1999/02/22-rdf-syntax-ns#type>"
+    } else {
+        template.triple.1
+    };
     let Some(predicate) = instantiate_term(
-        template.triple.1,
+        predicate_term,
         binding,
         prefixes,
         database,
